@@ -141,6 +141,12 @@ Notation xor_m := (xor_m level remember).
 Definition ok_result k (o : option (bdd * cst)) (f : asg -> bool) : Prop :=
   exists r s', o = Some (r, s') /\ WF k r /\ (forall x, den r x = f x) /\ csound s'.
 
+Lemma ok_result_ext' k o f f' : (forall x, f x = f' x) -> ok_result k o f -> ok_result k o f'.
+Proof.
+  intros E (r & s & H1 & H2 & H3 & H4). exists r, s.
+  split; [exact H1|]. split; [exact H2|]. split; [|exact H4]. intros x. rewrite H3. apply E.
+Qed.
+
 Ltac ok_split := split; [first [eassumption|reflexivity]|split; [first [eassumption|apply WF_neg; eassumption]|split; [|eassumption]]].
 
 Lemma ite_ok fuel k s f g h :
